@@ -37,6 +37,20 @@ Proof. split; vm_compute; reflexivity. Qed.
 Lemma codec_entry_points_agree : ConcGen.codec_entry_points = expected_codec_entry_points.
 Proof. vm_compute. reflexivity. Qed.
 
+(* the only mutable state on the path is the cache: struct fields and package-level variables *)
+Lemma struct_fields_agree :
+  ConcGen.cache_fields = expected_cache_fields /\
+  ConcGen.reflector_fields = expected_reflector_fields /\
+  ConcGen.codec_fields = expected_codec_fields.
+Proof. repeat split; vm_compute; reflexivity. Qed.
+
+Lemma package_vars_agree :
+  ConcGen.codec_pkg_vars = expected_codec_pkg_vars /\
+  ConcGen.reflect_pkg_vars = expected_reflect_pkg_vars /\
+  ConcGen.schema_pkg_vars = expected_schema_pkg_vars /\
+  ConcGen.codec_pkg_var_writers = [] /\ ConcGen.reflect_pkg_var_writers = [] /\ ConcGen.schema_pkg_var_writers = [].
+Proof. repeat split; vm_compute; reflexivity. Qed.
+
 (* ---- the unguarded discipline violates the property ------------------------ *)
 Local Open Scope N_scope.
 
